@@ -35,6 +35,8 @@ type traceEv struct {
 	Dsm uint64   `json:"dsm,omitempty"`
 	Fl  []string `json:"fl,omitempty"`
 	Dfl []string `json:"dfl,omitempty"`
+	Puc uint64   `json:"puc,omitempty"` // push: used counters of the parent at the time of the push
+	Pum uint64   `json:"pum,omitempty"`
 }
 
 type tracer struct {
@@ -119,6 +121,10 @@ func (tr *tracer) ctxHook(kind string, ctx rt.RuntimeContext, def *rt.RuntimeCon
 	if def != nil {
 		ev.Dhc, ev.Dhm, ev.Dsc, ev.Dsm = def.HardLimits.Cpu, def.HardLimits.Memory, def.SoftLimits.Cpu, def.SoftLimits.Memory
 		ev.Dfl = def.RequiredFlags.Names()
+		if p := ctx.Parent(); p != nil && !isNilCtx(p) {
+			pu := p.UsedResources()
+			ev.Puc, ev.Pum = pu.Cpu, pu.Memory
+		}
 	}
 	tr.evs = append(tr.evs, ev)
 }
